@@ -20,7 +20,7 @@ ASSUMPTIONS = ["within |1/Lambda - 1| < 1e-6 of the exactly-fitting configuratio
                "coordinates at scales 1e-3..1e6 (the property's 'admissible' parameters); start != end; non-zero radii"]
 CONFIGS = ['scipy']
 BUDGET = {'quick': 40000, 'thorough': 600000}
-REQUIRED = ['radius_enlarged', 'radius_kept', 'neg_radius', 'flags:00', 'flags:01', 'flags:10', 'flags:11', 'rot_outside_0_360']
+REQUIRED = ['arc_obtained_from_reversed', 'radius_enlarged', 'radius_kept', 'neg_radius', 'flags:00', 'flags:01', 'flags:10', 'flags:11', 'rot_outside_0_360']
 
 
 @st.composite
@@ -55,6 +55,7 @@ def strategy(tier, config):
         c = draw(arc_case())
         c['ts'] = draw(st.lists(gen.ts_unit, min_size=1, max_size=2))
         c['k'] = draw(st.integers(1, 6))
+        c['via'] = draw(st.sampled_from(['direct', 'direct', 'direct', 'from_reversed']))
         return c
     return s()
 
@@ -73,7 +74,13 @@ def check(case, ctx):
     if not (1e-24 < L < 1e24):
         ctx.discard('chord/radius ratio beyond 1e12 (squares under/overflow)')
     ref = A.endpoint_to_center(start, rx_in, ry_in, rot, large, sweep, end)
-    arc = ctx.lib('Arc', Arc, zs, complex(rx_in, ry_in), rot, bool(large), bool(sweep), ze)
+    if case.get('via') == 'from_reversed' and L < 1 - 1e-6:
+        # the arc under test is the product of reversed() applied to the same arc described from its other end (its radii fit,
+        # so they are not touched): every claim below holds for it as for a directly constructed one
+        arc = ctx.lib('reversed', ctx.lib('Arc', Arc, ze, complex(rx_in, ry_in), rot, bool(large), not bool(sweep), zs).reversed)
+        ctx.count('arc_obtained_from_reversed')
+    else:
+        arc = ctx.lib('Arc', Arc, zs, complex(rx_in, ry_in), rot, bool(large), bool(sweep), ze)
     size = max(abs(zs - ze), ref['rx'], ref['ry'])
     pos = max(abs(zs), abs(ze), size)
     if not (math.isfinite(L) and math.isfinite(size) and L > 0):
